@@ -158,6 +158,29 @@ pub(crate) fn traverse_with_callbacks(
     resolved_stops: &mut ColorStopVec,
     recurse_depth: usize,
 ) -> Result<(), PaintError> {
+    traverse_with_callbacks_impl(
+        paint,
+        instance,
+        painter,
+        decycler,
+        resolved_stops,
+        recurse_depth,
+        false,
+    )
+}
+
+/// `in_fill_glyph_probe` is true while the sub-graph below a `PaintGlyph` is
+/// traversed with a [`CollectFillGlyphPainter`] to find out whether it can be
+/// drawn with a single `fill_glyph` call.
+fn traverse_with_callbacks_impl(
+    paint: &ResolvedPaint,
+    instance: &ColrInstance,
+    painter: &mut impl ColorPainter,
+    decycler: &mut PaintDecycler,
+    resolved_stops: &mut ColorStopVec,
+    recurse_depth: usize,
+    in_fill_glyph_probe: bool,
+) -> Result<(), PaintError> {
     if recurse_depth >= MAX_TRAVERSAL_DEPTH {
         return Err(PaintError::DepthLimitExceeded);
     }
@@ -167,13 +190,14 @@ pub(crate) fn traverse_with_callbacks(
                 // Perform cycle detection with paint id here, second part of the tuple.
                 let (layer_paint, paint_id) = (*instance).v1_layer(layer_index)?;
                 let mut cycle_guard = decycler.enter(paint_id)?;
-                traverse_with_callbacks(
+                traverse_with_callbacks_impl(
                     &resolve_paint(instance, &layer_paint)?,
                     instance,
                     painter,
                     &mut cycle_guard,
                     resolved_stops,
                     recurse_depth + 1,
+                    in_fill_glyph_probe,
                 )?;
             }
             Ok(())
@@ -477,26 +501,39 @@ pub(crate) fn traverse_with_callbacks(
 
         ResolvedPaint::Glyph { glyph_id, paint } => {
             let glyph_id = (*glyph_id).into();
+            if in_fill_glyph_probe {
+                // A PaintGlyph below a PaintGlyph always makes the enclosing
+                // probe fail (it either pushes a clip or calls `fill_glyph`,
+                // whose provided implementation pushes one). Report that
+                // without descending: the sub-graph is traversed again by
+                // the unoptimized pass anyway, and probing it here as well
+                // doubles the work at every nesting level.
+                painter.push_clip_glyph(glyph_id);
+                painter.pop_clip();
+                return Ok(());
+            }
             let mut optimizer = CollectFillGlyphPainter::new(painter, glyph_id);
-            let mut result = traverse_with_callbacks(
+            let mut result = traverse_with_callbacks_impl(
                 &resolve_paint(instance, paint)?,
                 instance,
                 &mut optimizer,
                 decycler,
                 resolved_stops,
                 recurse_depth + 1,
+                true,
             );
 
             // In case the optimization was not successful, just push a clip, and continue unoptimized traversal.
             if !optimizer.optimization_success {
                 painter.push_clip_glyph(glyph_id);
-                result = traverse_with_callbacks(
+                result = traverse_with_callbacks_impl(
                     &resolve_paint(instance, paint)?,
                     instance,
                     painter,
                     decycler,
                     resolved_stops,
                     recurse_depth + 1,
+                    in_fill_glyph_probe,
                 );
                 painter.pop_clip();
             }
@@ -518,13 +555,14 @@ pub(crate) fn traverse_with_callbacks(
                                 painter.push_clip_box(rect);
                             }
 
-                            let result = traverse_with_callbacks(
+                            let result = traverse_with_callbacks_impl(
                                 &resolve_paint(instance, &base_glyph)?,
                                 instance,
                                 painter,
                                 &mut cycle_guard,
                                 resolved_stops,
                                 recurse_depth + 1,
+                                in_fill_glyph_probe,
                             );
                             if clipbox.is_some() {
                                 painter.pop_clip();
@@ -552,13 +590,14 @@ pub(crate) fn traverse_with_callbacks(
             paint: next_paint, ..
         } => {
             painter.push_transform(paint.try_into()?);
-            let result = traverse_with_callbacks(
+            let result = traverse_with_callbacks_impl(
                 &resolve_paint(instance, next_paint)?,
                 instance,
                 painter,
                 decycler,
                 resolved_stops,
                 recurse_depth + 1,
+                in_fill_glyph_probe,
             );
             painter.pop_transform();
             result
@@ -569,23 +608,25 @@ pub(crate) fn traverse_with_callbacks(
             backdrop_paint,
         } => {
             painter.push_layer(CompositeMode::SrcOver);
-            let mut result = traverse_with_callbacks(
+            let mut result = traverse_with_callbacks_impl(
                 &resolve_paint(instance, backdrop_paint)?,
                 instance,
                 painter,
                 decycler,
                 resolved_stops,
                 recurse_depth + 1,
+                in_fill_glyph_probe,
             );
             result?;
             painter.push_layer(*mode);
-            result = traverse_with_callbacks(
+            result = traverse_with_callbacks_impl(
                 &resolve_paint(instance, source_paint)?,
                 instance,
                 painter,
                 decycler,
                 resolved_stops,
                 recurse_depth + 1,
+                in_fill_glyph_probe,
             );
             painter.pop_layer_with_mode(*mode);
             painter.pop_layer_with_mode(CompositeMode::SrcOver);
